@@ -14,7 +14,8 @@ DECIDED = ("MIR makes unwinding explicit, so each clause is a path property: R5.
            "without effects; R5.4 no diverging path of an install root has written the function entry, except a flush refusal after a "
            "complete, correct write; R5.5 no mem::forget / ManuallyDrop / catch_unwind / abort / exit call site, no non-cleanup call whose "
            "unwind action is `terminate`, no `panic = \"abort\"` profile; restore-then-unlock on unwinding by C04 R4.5 and rustc's drop "
-           "elaboration")
+           "elaboration; R5.7 the only other process-global state, the call counters, is reset on the way into every installation (C07 R7.1), so "
+           "a lifetime that ended by unwinding leaves nothing behind for the next one")
 NOT_DECIDED = ("aborts caused by allocation failure inside std; panics inside a user fake with a non-unwinding ABI (excluded by the property)")
 
 ABORTING = ("std::process::abort", "std::process::exit", "std::panic::catch_unwind", "std::intrinsics::abort", "core::intrinsics::abort",
@@ -115,6 +116,9 @@ def run(ck, models, tier):
                 ck.ob("R5.6", "restore-order-survives-a-panic-at-scope-exit", tm.target, ok,
                       "teardown of %s.%s: %s (a panic raised while guards are still stored hands them to the drop glue, which would "
                       "restore oldest-first and leave a function faked twice un-restored)" % (short(inj_), field_, why), wh)
+        # ---------------- R5.7 no call-count state survives a lifetime that ended by unwinding: counters restart at every installation
+        from .c07 import install_resets_counter
+        install_resets_counter(ck, tm, "R5.7")
         # ---------------- R5.3 refusal before effects
         roots = patches.roots_and_roles(tm)
         checked = 0
